@@ -246,7 +246,7 @@ func loadOps() []op {
 	for i := range images {
 		l = append(l, op{kind: kBoot, image: i})
 	}
-	l = append(l, alphabet{keys: [][2]string{{"g1", "a"}}, ranges: [][2]string{{"", ""}, {"", k20}, {k10, ""}}, indexes: []int{0}, overrides: []bool{false},
+	l = append(l, alphabet{keys: [][2]string{{"g1", "a"}}, ranges: [][2]string{{"", ""}, {"", k20}, {k10, ""}, {k20, k20}, {k20, k10}}, indexes: []int{0}, overrides: []bool{false},
 		roles: []string{"voter", "learner"}, counts: []int{1}, groupOps: []string{"g1"}}.ops()...)
 	l = append(l, op{kind: kSetRule, rule: rspec{g: "pd", id: "default", role: "voter", count: 1}},
 		op{kind: kSetBundle, bundles: []bundle{{"g1", 0, false, nil}}},
